@@ -151,15 +151,58 @@ def _unterminated_last_lines(case):
 
 
 def _fused_after_unterminated_last_line(case, f):
-    """The alien line is an input's final line that lacks a newline, directly followed by another input line."""
+    """The alien line is a concatenation of >=2 input lines, at least one of them an input's final line that lacks a newline."""
     line = (f.get("detail") or {}).get("line") or ""
     allowed = lines_of(case["base"]) | lines_of(case["local"]) | lines_of(case["remote"])
-    for u in _unterminated_last_lines(case):
-        if u and line.startswith(u):
-            rest = line[len(u):].rstrip()
-            if rest in allowed or any(rest == a.lstrip() for a in allowed):
-                return True
+    unterminated = _unterminated_last_lines(case)
+    pieces = {a for a in allowed} | {a.lstrip() for a in allowed} | set(unterminated)
+    pieces.discard("")
+    n = len(line)
+    # best[i] = (reachable, used_unterminated, count) for prefix line[:i]
+    best = {0: (False, 0)}
+    for i in range(n):
+        if i not in best:
+            continue
+        used, cnt = best[i]
+        for p in pieces:
+            if line.startswith(p, i):
+                j = i + len(p)
+                # spaces between pieces may have been stripped / kept
+                while True:
+                    cand = (used or p in unterminated or p.rstrip() in {u.rstrip() for u in unterminated}, cnt + 1)
+                    if j not in best or (cand[0] and not best[j][0]):
+                        best[j] = cand
+                    if j < n and line[j] == " ":
+                        j += 1
+                    else:
+                        break
+    return n in best and best[n][0] and best[n][1] >= 2
+
+
+def _same_line_rewritten_on_both_sides(case, f):
+    """Some cell has a base source line that neither side kept (both rewrote or removed it): nbdime then merges that
+    line character by character, and the alien line consists of pieces of those versions."""
+    line = (f.get("detail") or {}).get("line") or ""
+
+    def cells(nb):
+        return {c.get("id", i): c for i, c in enumerate(nb["cells"])}
+    B, L, R = cells(case["base"]), cells(case["local"]), cells(case["remote"])
+    for k, b in B.items():
+        if k not in L or k not in R:
+            continue
+        bl = [x for x in b["source"].splitlines()]
+        ll, rl = set(L[k]["source"].splitlines()), set(R[k]["source"].splitlines())
+        changed = [x for x in bl if x not in ll and x not in rl]
+        if not changed:
+            continue
+        # every character run of the alien line must come from one of the three versions of this cell's source
+        pool = b["source"] + "\n" + L[k]["source"] + "\n" + R[k]["source"]
+        import difflib
+        covered = sum(m.size for m in difflib.SequenceMatcher(None, line, pool, autojunk=False).get_matching_blocks())
+        if covered >= 0.9 * len(line):
+            return True
     return False
 
 
-DISCRIMINATORS = {"fused_after_unterminated_last_line": _fused_after_unterminated_last_line}
+DISCRIMINATORS = {"fused_after_unterminated_last_line": _fused_after_unterminated_last_line,
+                  "same_line_rewritten_on_both_sides": _same_line_rewritten_on_both_sides}
